@@ -37,7 +37,7 @@ VALUES = {
     "double": [("tenth", 0.1), ("big", 1e308), ("inf", float("inf")), ("nan", float("nan")), ("subnormal", 5e-324), ("int", 1),
                ("int-not-f64", 2**53 + 1), ("bool", True), ("str", "1.5"), ("negzero", -0.0)],
     "string": [("ascii", "a"), ("empty", ""), ("unicode", "naïve ✓ 名"), ("nul", "\x00"), ("int", 5), ("float", 1.5), ("bool", True), ("bytes", b"bytes"),
-               ("bytes-invalid-utf8", b"\xff\xfe")],
+               ("bytes-invalid-utf8", b"\xff\xfe"), ("long", "https://example.org/items/0001-abcdefgh")],
     "date": [("date", dt.date(2020, 1, 1)), ("datetime-midnight", dt.datetime(2020, 1, 1)), ("datetime-with-time", dt.datetime(2020, 1, 1, 12, 30)),
              ("str", "2020-01-01"), ("int", 18262)],
     "timestamp": [("naive", dt.datetime(2020, 1, 1, 12, 30, 15, 123456)), ("aware-utc", dt.datetime(2020, 1, 1, tzinfo=UTC)),
@@ -192,18 +192,22 @@ def _coercion_grid(ctx, rep, base, model_rows):
                         else:
                             sig = f"C11:value-altered:{ty}:{cls}"
                         rep.violate(sig, f"{ty} column ← {v!r} accepted and stored as {got!r}", case)
-                    elif ty in ("int", "long", "float", "double") and v is not None and rows:
+                    elif ty in ("int", "long", "float", "double", "string") and v is not None and rows:
                         # no accepted append may make later scans mis-filter: the file now holds {first value, v}
                         first = [r for r in tablekit.load(p).scan() if r["k"] == 0][0]["v"]
                         t.append_records([{"k": 2, "v": vals[0][1]}, {"k": 3, "v": v}])      # and both in ONE file
-                        for op, want in (("!=", [1, 3] if got != first else []), ("==", sorted([0, 2] + ([1, 3] if got == first else [])))):
+                        probes_ = [("!=", first, [1, 3] if got != first else []), ("==", first, sorted([0, 2] + ([1, 3] if got == first else [])))]
+                        if got == got and got != first:         # (not NaN) the value itself must be findable
+                            probes_.append(("==", got, [1, 3]))
+                            probes_.append((">=", got, sorted([1, 3] + ([0, 2] if first >= got else []))) if type(first) is type(got) or not isinstance(got, str) else ("==", got, [1, 3]))
+                        for op, lit_, want in probes_:
                             try:
-                                ks = sorted(r["k"] for r in tablekit.load(p).scan(filter={"v": (op, first)}))
+                                ks = sorted(r["k"] for r in tablekit.load(p).scan(filter={"v": (op, lit_)}))
                             except Exception as e:      # noqa: BLE001
                                 ks = f"raise {type(e).__name__}"
                             rep.evaluations += 1
                             if ks != want:
-                                rep.violate("C11:accepted-append-mis-filters:value", f"{ty} column holding [{first!r}, {got!r}]: scan(filter v {op} {first!r}) "
+                                rep.violate("C11:accepted-append-mis-filters:value", f"{ty} column holding [{first!r}, {got!r}]: scan(filter v {op} {lit_!r}) "
                                             f"returns rows k={ks}, expected k={want}", case)
                 shutil.rmtree(p, ignore_errors=True)
 
@@ -443,6 +447,78 @@ def _large_appends(ctx, rep, base):
         shutil.rmtree(p, ignore_errors=True)
 
 
+def _multi_op_transactions(ctx, rep, base):
+    """several appends (records and pre-built files) queued in ONE transaction: every accepted row comes back"""
+    import pyarrow as pa
+    import pyarrow.parquet as pq
+    from datashard import Schema, create_table, load_table
+    from datashard.data_structures import DataFile, FileFormat
+    fields = [{"id": 1, "name": "a", "type": "long", "required": True}, {"id": 2, "name": "b", "type": "string", "required": False}]
+    sch = pa.schema([pa.field("a", pa.int64(), nullable=False), pa.field("b", pa.string(), nullable=True)])
+    bad = pa.schema([pa.field("a", pa.int64(), nullable=False), pa.field("zz", pa.string(), nullable=True)])
+
+    def mkfile(p, rel, schema, a):
+        full = os.path.join(p, rel)
+        os.makedirs(os.path.dirname(full), exist_ok=True)
+        pq.write_table(pa.table({schema[0].name: [a], schema[1].name: ["f"]}, schema=schema), full)
+        return DataFile(file_path="/" + rel, file_format=FileFormat.PARQUET, partition_values={}, record_count=1, file_size_in_bytes=os.path.getsize(full))
+    # (1) three record appends + one file append in one transaction
+    p = os.path.join(base, "multi1")
+    t = create_table(p, Schema(schema_id=1, fields=fields))
+    with t.new_transaction() as tx:
+        tx.append_data([{"a": 10, "b": "x"}, {"a": 11, "b": "x"}])
+        tx.append_data([{"a": 20, "b": "y"}])
+        tx.append_files([mkfile(p, "data/pre1.parquet", sch, 30)])
+        tx.append_data([{"a": 40, "b": "z"}])
+        tx.commit()
+    rep.evaluations += 1
+    rep.nontrivial(["multi-op", 1])
+    for label, hh in (("same-handle", t), ("fresh-handle", load_table(p))):
+        got = sorted(r["a"] for r in hh.scan())
+        if got != [10, 11, 20, 30, 40] or hh.row_count() != 5:
+            rep.violate("C11:accepted-append-not-exact:multi-op", f"one transaction with 4 queued appends: {label} scan returns a={got}, row_count {hh.row_count()}",
+                        {"kind": "multi-op-transaction"})
+            break
+    # (2) same base name in two sub-directories, the second one divergent; and a rejected file offered again on the same transaction
+    for scenario in ("same-basename", "retry-rejected"):
+        p = os.path.join(base, "multi-" + scenario)
+        t = create_table(p, Schema(schema_id=1, fields=fields))
+        t.append_records([{"a": 1, "b": "x"}])
+        before = _state(p)
+        accepted = []
+        tx = t.new_transaction().begin()
+        try:
+            if scenario == "same-basename":
+                tx.append_files([mkfile(p, "data/day=1/part-0.parquet", sch, 2)])
+                attempts = [mkfile(p, "data/day=2/part-0.parquet", bad, 3)]
+            else:
+                f_bad = mkfile(p, "data/part-9.parquet", bad, 3)
+                attempts = [f_bad, f_bad]
+            for df in attempts:
+                try:
+                    tx.append_files([df])
+                    accepted.append(True)
+                except Exception:       # noqa: BLE001
+                    accepted.append(False)
+            if any(accepted):
+                tx.commit()
+            else:
+                tx.rollback()
+        except Exception:       # noqa: BLE001
+            pass
+        rep.evaluations += 1
+        rep.nontrivial(["multi-op", scenario])
+        case = {"kind": "prebuilt-files-in-one-transaction", "scenario": scenario, "divergent_file_accepted": accepted}
+        if any(accepted):
+            try:
+                load_table(p).scan()
+            except Exception as e:      # noqa: BLE001
+                rep.violate("C11:accepted-file-makes-scan-fail", f"{scenario}: a parquet file whose footer differs from the table schema was accepted "
+                            f"({accepted}); scan raises {type(e).__name__}", case)
+        elif scenario == "retry-rejected" and _state(p)[:2] != before[:2]:
+            rep.violate("C11:rejected-append-left-a-trace", f"{scenario}: rejected twice, yet the table changed", case)
+
+
 def run(ctx, model_ok):
     rep = Report()
     rep.rule = ("the whole grid: 11 column types × 4–13 value classes (boundary ints, integral / fractional floats and decimals into integer "
@@ -460,6 +536,7 @@ def run(ctx, model_ok):
         _arrow_layer(ctx, rep, base, rows)
         _prebuilt_files(ctx, rep, base, rows)
         _large_appends(ctx, rep, base)
+        _multi_op_transactions(ctx, rep, base)
         rep.exhaustive = True
         if model_ok and rows:
             seen = {}
